@@ -75,6 +75,8 @@ ALL = [
     mk('class_change_preempt_keeps_queue_order', [SCH([1, 0, 1], [5, 8, 100], preempt='resume')], {'H': [seq(6.0, 1000)], 'L': [seq(1.0, 1000)], 'X': [seq(7.0, 1000)]},
        {'H': [det(3)], 'L': [det(10)], 'X': [det(3)]}, TM([[0.0]]), classes=['H', 'L', 'X'], priorities={'H': 0, 'L': 1, 'X': 1}, prio_preempt=['resume'],
        cct={'X': {'H': det(2.0)}}, T=60.0),
+    mk('arrival_preempt_keeps_queue_order', [SCH([1, 0, 1], [5, 8, 100], preempt='resume')], {'H': [seq(6.0, 3.0, 1000)], 'L': [seq(1.0, 1000)]},
+       {'H': [det(3)], 'L': [det(10)]}, TM([[0.0]]), classes=['H', 'L'], priorities={'H': 0, 'L': 1}, prio_preempt=['resume'], T=60.0),
     # first arrival at time 0 at a slotted node (repaired K28)
     mk('arrival_at_time_zero_slotted', [SLOT([1.0, 2.0], [1, 1])], [seq(0.0, 2.0, 1000)], [det(0.5)], TM([[0.0]]), T=10.0),
     mk('arrival_at_time_zero_plain', [I(1)], [seq(0.0, 2.0, 3.0)], [det(1.5)], TM([[0.5]]), T=30.0),
